@@ -4,6 +4,7 @@ import (
 	btapb "cloud.google.com/go/bigtable/admin/apiv2/adminpb"
 	"encoding/binary"
 	"fmt"
+	"sort"
 	"strings"
 	"sync"
 	"sync/atomic"
@@ -21,10 +22,13 @@ import (
 func init() { register("C06", "exploration", runC06) }
 
 func runC06(run *common.Run) {
-	run.Rule = "Part 'atomic' (sequential, enumerated): for MutateRow, a MutateRows entry, both CheckAndMutateRow branches and ReadModifyWriteRow, every list of length 1-4 whose k-th element is invalid (each invalid kind), on an empty and on a populated row: the request/entry must fail, the whole table must be unchanged, other MutateRows entries applied exactly. Part 'lin' (concurrent): case = one history of 3-6 client goroutines x 6-10 operations (MutateRow writing one unique tag into two columns, MutateRows over both rows, CheckAndMutateRow 'if column==tag_i write tag_j' (half of the predicates also run strip_value over the row they test), ReadModifyWriteRow increment and append of unique tags, DeleteFromRow, whole-row reads) on 2 rows (every third history next to a schema-churn client that creates a scratch family, fills it in 250 other rows and in the rows under test, and drops it again, repeatedly), recorded at the gRPC client boundary with a logical clock, with bounded holds at the write RPCs' afterRead/beforeWrite yield points; checked per row with porcupine against a sequential row model plus conservation monitors (sum of acknowledged increments, each appended tag exactly once). Part 'round': multi-message scans on the btree engine under concurrent multi-column row writes, deletes and appends (the rounds of C18): every returned row is one of the states the row had during the scan, never half of a request. Part 'admin': a single-row write (each of the four RPCs) meets an admin request (drop of a family it names or of another one, DropRowRange all / by prefix, GC-rule update) performed start to finish at the moment the write queues for the table lock: the write's answer and the final table must be explained by one of the two serial orders. Non-trivial = history in which at least two operations on one row overlapped in logical time; distinct by history hash."
+	run.Rule = "Part 'atomic' (sequential, enumerated): for MutateRow, a MutateRows entry, both CheckAndMutateRow branches and ReadModifyWriteRow, every list of length 1-4 whose k-th element is invalid (each invalid kind), on an empty and on a populated row: the request/entry must fail, the whole table must be unchanged, other MutateRows entries applied exactly. Part 'bigbatch': MutateRows requests of 1001-2600 entries with failing entries at positions below and beyond 1000: one status per entry, failing entries without effect, all others applied. Part 'lin' (concurrent): case = one history of 3-6 client goroutines x 6-10 operations (MutateRow writing one unique tag into two columns, MutateRows over both rows, CheckAndMutateRow 'if column==tag_i write tag_j' (half of the predicates also run strip_value over the row they test), ReadModifyWriteRow increment and append of unique tags, DeleteFromRow, whole-row reads) on 2 rows (every third history next to a schema-churn client that creates a scratch family, fills it in 250 other rows and in the rows under test, and drops it again, repeatedly), recorded at the gRPC client boundary with a logical clock, with bounded holds at the write RPCs' afterRead/beforeWrite yield points; checked per row with porcupine against a sequential row model plus conservation monitors (sum of acknowledged increments, each appended tag exactly once). Part 'round': multi-message scans on the btree engine under concurrent multi-column row writes, deletes and appends (the rounds of C18): every returned row is one of the states the row had during the scan, never half of a request. Part 'admin': a single-row write (each of the four RPCs) meets an admin request (drop of a family it names or of another one, DropRowRange all / by prefix, GC-rule update) performed start to finish at the moment the write queues for the table lock: the write's answer and the final table must be explained by one of the two serial orders. Non-trivial = history in which at least two operations on one row overlapped in logical time; distinct by history hash."
 	run.Assumptions = []string{"porcupine v1.3.0 linearizability checker (per-row partitioning)", "sequential row model of ~60 lines", "holds are bounded sleeps inside the hooked points; they only widen interleavings and are never a verdict"}
 	if run.WantSub("atomic") {
 		c06Atomic(run)
+	}
+	if run.WantSub("bigbatch") && !run.TooMany() {
+		c06BigBatch(run)
 	}
 	if run.WantSub("lin") {
 		c06Lin(run)
@@ -261,6 +265,86 @@ func c06Atomic(run *common.Run) {
 		}
 		srv.Close(true)
 	}
+}
+
+// c06BigBatch: MutateRows requests of 1001-2600 entries (more than any per-response or per-batch size a server might
+// use) with failing entries at PRNG positions, among them positions 1000, 1001 and the last one: exactly one status per
+// entry, the failing entries (valid mutations before the invalid one) left their rows untouched, every other entry is
+// applied.
+func c06BigBatch(run *common.Run) {
+	for ei, engine := range drive.Engines {
+		for c := 0; c < run.N(2, 12); c++ {
+			idx := ei*100 + c
+			if !run.Want("bigbatch", idx) || run.TooMany() {
+				continue
+			}
+			r := run.Rand("C06.bigbatch", c)
+			srv, err := drive.Start(engine, gen.BaseClock, "")
+			if err != nil {
+				run.Violation("bigbatch", idx, "cannot start server: "+err.Error(), nil)
+				return
+			}
+			table := drive.MustTable(srv.Admin, "t", "f1", "f2")
+			m := model.NewTable("f1", "f2")
+			n := r.Range(1001, 2600)
+			failAt := map[int]bool{1000: true, 1001: r.Bool(), n - 1: true, r.Intn(1000): true}
+			for i := 0; i < 12; i++ {
+				failAt[r.Intn(n)] = true
+			}
+			var entries []drive.Entry
+			for i := 0; i < n; i++ {
+				key := fmt.Sprintf("bb%05d", i)
+				if r.Chance(1, 40) && i > 0 {
+					key = fmt.Sprintf("bb%05d", r.Intn(i)) // an earlier row again
+				}
+				muts := []model.Mut{{Kind: model.SetCell, Fam: "f1", Qual: "q", TS: 1000, Val: fmt.Sprint("e", i)}}
+				if failAt[i] {
+					muts = append(muts, model.Mut{Kind: model.SetCell, Fam: gen.UnknownFam, Qual: "q", TS: 1000, Val: "x"})
+				}
+				entries = append(entries, drive.Entry{Key: key, Muts: muts})
+			}
+			st, per, mal := drive.MutateRows(srv.Data, table, entries)
+			desc := fmt.Sprintf("engine=%s MutateRows of %d entries, failing entries at %v", engine, n, sortedKeys(failAt))
+			bad := ""
+			switch {
+			case !st.OK():
+				bad = "the request failed as a whole: " + st.String()
+			case mal != "":
+				bad = "response malformed: " + mal
+			}
+			for i := 0; bad == "" && i < n; i++ {
+				v, nr := m.Apply(entries[i].Key, entries[i].Muts, gen.BaseClock)
+				if (v == model.MustErr) == per[i].OK() {
+					bad = fmt.Sprintf("entry %d (%s): status %s, expected %s", i, entries[i].Key, per[i], v)
+				}
+				if per[i].OK() {
+					m.Commit(entries[i].Key, nr)
+				}
+			}
+			if bad == "" {
+				if msg := checkTable(srv.Data, table, m); msg != "" {
+					bad = "table after the request: " + trunc(msg, 500)
+				}
+			}
+			if bad != "" {
+				run.Violation("bigbatch", idx, bad+" | "+desc, map[string]any{"engine": engine, "case": desc})
+			}
+			run.Case(common.Hash64("bigbatch", desc), true)
+			run.Count("big_batch_entries", int64(n))
+			srv.Close(true)
+		}
+	}
+}
+
+func sortedKeys(m map[int]bool) []int {
+	var out []int
+	for k, v := range m {
+		if v {
+			out = append(out, k)
+		}
+	}
+	sort.Ints(out)
+	return out
 }
 
 // ---- part 2: linearizability ---------------------------------------------------------------
